@@ -863,5 +863,16 @@ for _p in ("C16", "C13"):
     PROPS[_p]["rules"] = PROPS[_p]["rules"] + [rules_errors.rule_closed_stream_replaced]
     PROPS[_p]["explanation"] += " (STREAMKEPT) the arm taken when closing a shared file record's stream fails gives the record a stream again before it leaves."
 
+# round 14
+PROPS["C06"]["rules"] = PROPS["C06"]["rules"] + [rules_conv.rule_assembled_byte_unsigned]
+PROPS["C06"]["explanation"] += " (BYTESIGN) a byte joined to a shifted value is read through an unsigned 8-bit type."
+PROPS["C07"]["rules"] = PROPS["C07"]["rules"] + [(lambda ctx: rules_loops.rule_inner_accumulator_reset(ctx, files=None, floor=3))]
+PROPS["C07"]["explanation"] += " (ACCRESET) a running offset of a field loop nested in a piece-wise loop is reset inside the outer loop."
+PROPS["C04"]["rules"] = PROPS["C04"]["rules"] + [rules_loops.rule_cursor_advanced_by_copy, rules_idioms.rule_fieldwise_copy_names]
+PROPS["C04"]["explanation"] += " (CURSORADV) a buffer cursor is advanced by the bytes just copied through it. (SAMEFIELD) a field-by-field copy between two records uses each source field once."
+for _p in ("C10", "C20"):
+    PROPS[_p]["rules"] = PROPS[_p]["rules"] + [rules_sd.rule_name_limit_same_side]
+    PROPS[_p]["explanation"] += " (NAMELIMIT) every comparison of a length with H4_MAX_NC_NAME accepts a length equal to it."
+
 NOT_APPLICABLE = {}
 
